@@ -13,7 +13,9 @@ from ..result import Result
 ID = "C02"
 TOLERANCES = {"acceptance": "error at rounding level (<=1e-11 relative), or average observed order over the ladder >= p0-0.45 (3-D: p0-0.6), or order on "
                             "the finest pair >= p0-0.25 (3-D: p0-0.4); otherwise escalate (finer ladder) and decide there",
-              "p0": "2 (diffusion, central advection, sources, dt ~ h^2), 1 (upwind)"}
+              "p0": "2 (diffusion, central advection, sources, dt ~ h^2), 1 (upwind)",
+              "inconclusive": "an undecided steady case whose discrete problem amplifies errors by >= 30 (max row sum of |M^-1| over the PDE rows on the two "
+                              "coarsest levels) is discarded and counted; 3-D orders still rising by >= 0.2 per doubling are judged with margin 0.5"}
 RULE = ("Error norm: max norm at cell centres; volume-weighted RMS norm when the axis r = 0 is part of the domain.  Generated: grid class (9) x spacing per axis {uniform, smooth grading x=a+L(s+g s(1-s)), |g|<=0.45} x radial origin {0, offset} x "
         "boundary kind per side {Dirichlet, Neumann, Robin} x term set {diffusion, +central, +upwind, +linear source, +transient (1-D/2-D)} x "
         "a parametric family of smooth solutions phi = c0 + prod_i (1 + a_i sin(w_i xi_i + p_i)) (regular at the axis when r=0 is in the "
@@ -78,7 +80,8 @@ def _case(draw, tier):
         par[f'w{i + 1}'] = draw(st.sampled_from([1.0, 1.7] if small else [1.0, 1.7, 2.5, 3.1]))
         par[f'p{i + 1}'] = draw(st.sampled_from([0.0, 0.5, 1.3, 2.2]))
         par[f'v{i + 1}'] = draw(st.sampled_from([0.0, 0.5, -0.7, 1.0])) if scheme != 'none' else 0.0
-    return dict(name=name, axis=axis, dom=dom, transient=transient, scheme=scheme, bc=bc, par=par, T=0.2)
+    return dict(name=name, axis=axis, dom=dom, transient=transient, scheme=scheme, bc=bc, par=par, T=0.2,
+                bc_style=draw(st.sampled_from(['passed', 'passed', 'shared_late'])))
 
 
 EXHAUSTIVE_NOTE = ("a fixed stratum is enumerated besides the generated cases: class (9) x radial origin {offset, axis} x scheme {central, upwind} x "
@@ -113,7 +116,8 @@ def enumerate_cases(tier):
                             par[f'w{i + 1}'] = [1.7, 1.0, 1.7][i] if small else [1.7, 2.5, 1.0][i]
                             par[f'p{i + 1}'] = [0.5, 1.3, 2.2][i]
                             par[f'v{i + 1}'] = sgn * [0.7, -0.5, 1.0][i]
-                        yield dict(name=name, axis=axis, dom=dom, transient=False, scheme=scheme, bc=bc, par=par, T=0.2, enumerated=True)
+                        yield dict(name=name, axis=axis, dom=dom, transient=False, scheme=scheme, bc=bc, par=par, T=0.2, enumerated=True,
+                                   bc_style='shared_late' if sgn < 0 else 'passed')
                         if scheme == 'upwind' and nd <= 2 and pat == ('R', 'N'):
                             # a time loop: the same coefficient objects serve every step
                             yield dict(name=name, axis=axis, dom=dom, transient=True, scheme=scheme, bc=bc, par=dict(par, lam=0.5, al=1.0), T=0.2,
@@ -156,7 +160,7 @@ def _bcast(arrs, nd, which):
     return out
 
 
-def solve_level(case, n):
+def solve_level(case, n, capture=None):
     """returns (max error at cell centres, volume-weighted rms error)"""
     name = case['name']
     F = msol.build(name, bool(case['axis']), bool(case['transient']))
@@ -201,7 +205,9 @@ def solve_level(case, n):
                 bf.b[:] = b
                 bf.c[:] = (a * dn_b + b * phi_b).reshape(bf.c.shape)
     BC = pf.BoundaryConditions(m)
-    set_bc(BC, 0.0)
+    shared_late = case.get('bc_style') == 'shared_late' and not case['transient']
+    if not shared_late:
+        set_bc(BC, 0.0)
 
     def spatial(t):
         tl = [-pf.diffusionTerm(D), pf.linearSourceTerm(beta), pf.constantSourceTerm(pf.CellVariable(m, at_cells(F['gamma'], t)))]
@@ -212,7 +218,20 @@ def solve_level(case, n):
         return tl
     if not case['transient']:
         phi = pf.CellVariable(m, 0.0, BC)
-        pf.solvePDE(phi, spatial(0.0))
+        if shared_late:
+            # one BC object: the boundary data are set after the unknown exists, and a second variable (the exact solution, for
+            # comparison) is created on the same object before the solve
+            set_bc(BC, 0.0)
+            pf.CellVariable(m, at_cells(F['phi'], 0.0), BC)
+        if capture is not None:
+            from scipy.sparse.linalg import spsolve
+
+            def rec(M, b):
+                capture['M'] = M.toarray()
+                return spsolve(M, b)
+            pf.solvePDE(phi, spatial(0.0), externalsolver=rec)
+        else:
+            pf.solvePDE(phi, spatial(0.0))
         exact = at_cells(F['phi'], 0.0)
     else:
         phi = pf.CellVariable(m, at_cells(F['phi'], 0.0), BC)
@@ -234,6 +253,30 @@ def solve_level(case, n):
     return (erms if case['axis'] else emax), erms, float(np.abs(exact).max())
 
 
+def stability_probe(case):
+    """error amplification of the steady discrete problem, max_i sum_j |M^-1|_ij over the PDE rows j, on the two coarsest ladder
+    levels.  The error is M^-1 applied to the truncation error; for a well-posed problem on an O(1) domain with O(1) diffusivity
+    this factor is O(1).  A manufactured problem whose continuous operator is nearly singular (advection with net compression
+    and no sink can cancel the diffusion's smallest eigenvalue) amplifies the truncation error by orders of magnitude and says
+    nothing about the discretisation at any affordable resolution."""
+    if case['transient']:
+        return 1.0
+    g = 0.0
+    nd = NDIM[case['name']]
+    for n in LADDER[nd][:2]:
+        cap = {}
+        solve_level(case, n, capture=cap)
+        M = cap['M']
+        d = (n,) * nd
+        idx = np.arange(M.shape[0]).reshape(tuple(k + 2 for k in d))[tuple(slice(1, -1) for _ in d)].ravel()
+        try:
+            Minv = np.linalg.inv(M)
+        except np.linalg.LinAlgError:
+            return float('inf')
+        g = max(g, float(np.abs(Minv[:, idx]).sum(axis=1).max()))
+    return g
+
+
 MARGIN = {1: (0.45, 0.25), 2: (0.45, 0.25), 3: (0.6, 0.4)}    # (average, finest pair); 3-D ladders are coarser (<= 32 cells per axis)
 
 
@@ -247,6 +290,8 @@ def _decide(errs, p0, scale, nd=1):
     ma, ml = MARGIN[nd]
     if nd == 3 and p0 == 1:
         ml = 0.5      # first-order upwind on the coarse 3-D ladder: the error hump of the coarsest levels is still visible
+    if nd == 3 and len(orders) >= 2 and orders[-1] - orders[-2] >= 0.2:
+        ml = max(ml, 0.5)     # 3-D ladders end at 32 cells per axis: an order still rising by >= 0.2 per doubling is pre-asymptotic
     if avg >= p0 - ma or orders[-1] >= p0 - ml:
         return 'pass', orders
     return 'undecided', orders
@@ -288,6 +333,13 @@ def check(case):
     if errs[0] < 1e-6 * scale:
         res._trivial = True
     if verdict != 'pass':
+        g = stability_probe(case)
+        res.see("amplification-of-undecided", g)
+        if not g < 30.0:
+            # inconclusive, not a violation: the manufactured problem itself amplifies truncation errors by >= 30
+            res.discarded = True
+            res.discard_reason = 'ill-conditioned-problem'
+            return res
         tag = f"{case['scheme']}{'+transient' if case['transient'] else ''}:{case['name']}"
         res.fail(f"order:{tag}", f"error does not decrease at order {p0} under refinement on {case['name']} (scheme {case['scheme']}, "
                  f"transient={case['transient']}, axis r=0 in domain={case['axis']}, BCs {classify(case)['bc']}): N={ladder[-len(orders) - 1:]}, "
